@@ -49,7 +49,7 @@ LocusOf(ev, r, kind) ==
          THEN (IF kind = "wrong-denotation"
                THEN <<"fragment", IF FirstDiff(r.v, ev.fr) <= Len(r.v) THEN DiffName(r.v[FirstDiff(r.v, ev.fr)]) ELSE "extra">>
                ELSE <<Names(r.v), "-">>)
-         ELSE <<"script " \o TopOp(r.v), "-">>
+         ELSE IF kind = "wrong-denotation" THEN <<"script", "tree">> ELSE <<"script " \o TopOp(r.v), "-">>
 
 Judge == /\ c <= N
          /\ c' = c + 1
